@@ -436,7 +436,16 @@ func apiFailureText(r *lib.Rng) Text {
 const midTextFile = "/tmp/c05-src-midtext.zy"
 
 func writeMidTextFile() {
-	os.WriteFile(midTextFile, []byte("(def zz1 5) ) (def zzAfter 7)\n"), 0644)
+	// several processes (workers, concurrent checks) use the same path: never truncate a file that is
+	// already right, and replace it atomically otherwise (a reader must not see an empty file)
+	const content = "(def zz1 5) ) (def zzAfter 7)\n"
+	if b, err := os.ReadFile(midTextFile); err == nil && string(b) == content {
+		return
+	}
+	tmp := fmt.Sprintf("%s.%d", midTextFile, os.Getpid())
+	if os.WriteFile(tmp, []byte(content), 0644) == nil {
+		os.Rename(tmp, midTextFile)
+	}
 }
 
 // isRejectedText recognises the interlude texts (used by --replay to give them their role).
